@@ -200,7 +200,8 @@ class Ctx:
         shutil.rmtree(meta, ignore_errors=True)
         self._parse_tlc(res, coverage)
         self.tlc_runs.append({"module": module, "cfg": cfg, "simulate": simulate, **res.as_dict()})
-        self.states += res.distinct
+        if not simulate:
+            self.states += res.distinct  # simulation revisits states: only exhaustive runs count as distinct states
         self.transitions += res.generated
         log("[%s] tlc %s/%s: %d generated, %d distinct, depth %d, %.1fs%s" % (
             self.pid, module, cfg, res.generated, res.distinct, res.depth, res.wall,
